@@ -100,4 +100,25 @@ def user_call(ex, st, f, pos, named, stars, sargs, node):
           trusted='SBlock.event / AddonPersistence.event (verified under C11, C09, C06)',
           traced=lambda a, st: rec('event', to_val(a['self'], st), to_val(a['etype'], st), kw=a['data'].arr))
 def event_iface(c):
+    # the value returned by the handler: an uninterpreted function of destination, event type, delivered data and the
+    # position of the call in the activation (so that a caller can say "returns the handler's result")
+    c.returns(ZV('val', evres(Val.Obj(c.z('self')), c.v('etype'), mkD(c.arg('data').arr), c.S.tn)))
     c.raises('DeliveryError', unchanged=False)
+
+
+evres = Function('evres', Val, Val, IntSort(), IntSort(), Val)
+
+
+# ------------------------------------------------------------------------------------------ asyncio.Task (trusted interface)
+declare_fields(task_done=BOOL, task_cancelled=BOOL, task_exception=VAL, cancel_requested=BOOL)
+_P = __import__('pyvc.contract', fromlist=['Param']).Param
+
+
+@contract('*.done', modifies=(), result=BOOL, sig=([_P('self', Ref())], None, None), trusted='asyncio.Task.done')
+def _task_done(c):
+    c.returns(ZV('bool', c.pre('task_done', c.z('self'))))
+
+
+@contract('*.cancelled', modifies=(), result=BOOL, sig=([_P('self', Ref())], None, None), trusted='asyncio.Task.cancelled')
+def _task_cancelled(c):
+    c.returns(ZV('bool', c.pre('task_cancelled', c.z('self'))))
